@@ -51,6 +51,7 @@ fn t1_deliveries<const K: usize>(announced: bool, keep: bool) {
         new_ft(FileTransferState::MissingStart, u64::MAX, 0, 0, keep)
     };
     let mut in_order_genuine = 0usize; // how many genuine packages 1.. arrived as a subsequence in order
+    let mut fault_seen = false; // a delivery that is neither the next genuine package nor a duplicate of an accepted one
     let mut k = 0;
     while k < K {
         let pnr: usize = kani::any();
@@ -61,6 +62,8 @@ fn t1_deliveries<const K: usize>(announced: bool, keep: bool) {
         kani::assume(e2 >= s && e2 <= FMAX && e2 <= s + bs + 1);
         if pnr >= 1 && pnr <= nr && pnr == in_order_genuine + 1 && e2 == e {
             in_order_genuine += 1;
+        } else if !(pnr >= 1 && pnr <= in_order_genuine) {
+            fault_seen = true; // out of order / out of range / resized (a repeated, already accepted package is tolerated)
         }
         let arg = raw_arg(&file[s..e2]);
         if !announced {
@@ -82,6 +85,11 @@ fn t1_deliveries<const K: usize>(announced: bool, keep: bool) {
             assert_eq!(ft.recvd_payload, fsize);
             assert_eq!(ft.file_size, fsize as u64);
             assert!(in_order_genuine == nr); // nothing missing, nothing out of order
+        }
+        if !announced {
+            // without announcement the end marker is the only completeness evidence: the transfer may be reported complete
+            // only if every delivered package was the next one in order (added after seeded change C17-2)
+            assert!(!fault_seen);
         }
         if keep {
             assert_eq!(ft.file_data.len(), ft.recvd_payload);
